@@ -26,10 +26,10 @@ def isQuoteSuffixChar (c : Char) : Bool :=
   isPySpace c || c == '.' || c == ',' || c == ';' || c == ':' || c == '?' || c == '!' ||
   c == '—' || c == ')'
 
-/-- `(\s|$|\.|,|;|:|\?|!|—|\))`: number of characters consumed, if it matches. -/
-def suffixLen : Str → Option Nat
-  | [] => some 0
-  | c :: _ => if isQuoteSuffixChar c then some 1 else none
+/-- the lookahead `(?=\s|$|\.|,|;|:|\?|!|—|\))` holds at the head of the rest (nothing is consumed) -/
+def suffixOk : Str → Bool
+  | [] => true
+  | c :: _ => isQuoteSuffixChar c
 
 /-- `PARAGRAPH_BREAK_PATTERN = \n\s*\n` occurs in the text. -/
 def afterWsHasNl : Str → Bool
@@ -45,11 +45,10 @@ suffix.  `o`/`cl` are the curly replacements. Returns `(output for the matched s
 def quoteSpan (q o cl : Char) (cs : Str) : Option (Str × Str) :=
   match scanContent q o cl cs with
   | some (content, rest) =>
-    match suffixLen rest with
-    | some k =>
-      if hasParaBreak content then some (q :: content ++ q :: rest.take k, rest.drop k)
-      else some (o :: content ++ cl :: rest.take k, rest.drop k)
-    | none => none
+    if suffixOk rest then
+      if hasParaBreak content then some (q :: content ++ [q], rest)
+      else some (o :: content ++ [cl], rest)
+    else none
   | none => none
 
 /-- The quote alternation at the head of `s`. -/
